@@ -158,5 +158,6 @@ func genExtra() {
 	genC15()
 	genC14()
 	genC06()
+	genC10()
 	genC11()
 }
